@@ -64,13 +64,20 @@ def spec(self, other):
 
 def _p_arrow_getitem(ex):
     self = ex.sym_arrow('self', wf=False)
-    v = ex.fork(3)
+    v = ex.fork(5)
     if v == 0:
         key = VSlice(_opt_int(ex, 'start'), _opt_int(ex, 'stop'), NONE)
     elif v == 1:
         key = VSlice(NONE, NONE, VInt(-1))
+    elif v == 2:
+        key = VSlice(_opt_int(ex, 'start'), _opt_int(ex, 'stop'), VInt(-1))      # reversed slice with bounds
+    elif v == 3:
+        step = ex.sym_int('step')                                                 # any other step is refused
+        ex.assume(z3.And(step.t != 1, step.t != -1, step.t != 0))
+        key = VSlice(_opt_int(ex, 'start'), _opt_int(ex, 'stop'), step)
     else:
         key = ex.sym_int('key')
+    ex._gi = (self, key)
     return [self, key], {}
 
 
@@ -80,12 +87,28 @@ def _opt_int(ex, name):
     return ex.sym_int(name)
 
 
+def _e_arrow_getitem(interp, args, kwargs, result):
+    """C01 (slicing): every slice of a well-typed arrow is well-typed -- including reversed slices with bounds"""
+    ex = interp.ex
+    self, key = ex._gi
+    if not isinstance(key, VSlice) or not isinstance(result, VArrow):
+        return
+
+    def side():
+        ex.assume_wfA(self)
+        prove_wfA(ex, 'C01:slice of a well-typed arrow', result)
+    ex.side(side)
+
+
 contract('cat.Arrow.__getitem__', property_ids=('C01', 'C02'), spec='''
 def spec(self, key):
     if isinstance(key, slice):
         if key.step == -1:
-            boxes = [box[::-1] for box in self.boxes[key]]
-            return RawArrow(self.cod, self.dom, boxes)
+            reverse = RawArrow(self.cod, self.dom, [box[::-1] for box in self.boxes[::-1]])
+            if key.start is None and key.stop is None:
+                return reverse
+            start, stop, _ = key.indices(len(self))
+            return reverse[len(self) - 1 - start:len(self) - 1 - stop]
         if (key.step or 1) != 1:
             raise IndexError
         boxes = self.boxes[key]
@@ -97,7 +120,7 @@ def spec(self, key):
             return RawArrow(self.boxes[key.start or 0].dom, self.boxes[key.start or 0].dom, [])
         return RawArrow(boxes[0].dom, boxes[-1].cod, boxes)
     return self.boxes[key]
-''', params=_p_arrow_getitem)
+''', params=_p_arrow_getitem, ensures=_e_arrow_getitem, on_raise=lambda *a: None)
 
 
 # ---------------------------------------------------------------- monoidal.Layer
@@ -234,11 +257,13 @@ def lemma(name, fn, property_ids=()):
 
 def _p_diagram_getitem(ex):
     self = ex.sym_diagram('self', wf=True)
-    v = ex.fork(3)
+    v = ex.fork(4)
     if v == 0:
         key = VSlice(_opt_int(ex, 'start'), _opt_int(ex, 'stop'), NONE)
     elif v == 1:
         key = VSlice(NONE, NONE, VInt(-1))
+    elif v == 2:
+        key = VSlice(_opt_int(ex, 'start'), _opt_int(ex, 'stop'), VInt(-1))      # reversed slice with bounds
     else:
         key = ex.sym_int('key')
     return [self, key], {}
@@ -400,4 +425,62 @@ _c = Contract('cat.Arrow.__init__', is_init=True, params=_p_arrow_init_scan, ens
               on_raise=lambda *a: None, property_ids=('C01',),
               loops={0: LoopSpec(assume=_ascan_assume, check=_ascan_check)})
 _c.label = 'cat.Arrow.__init__[scan]'
+CONTRACTS[_c.label] = _c
+
+
+# ---------------------------------------------------------------- monoidal.Diagram.__init__, scan path: acceptance (C01)
+#
+# The other direction of the constructor's contract: every well-typed request is accepted, and the layers it computes
+# are the (unique) layers of the request.  Ghost input: a well-formed diagram d; the constructor is run on
+# (d.dom, d.cod, d.boxes, d.offsets).  Used at call sites (scan_layers with a closed-form witness, see
+# contracts/structural.py): a caller that exhibits well-formed layers for its boxes / offsets gets exactly them back.
+
+def _acc_cod(ex, d, k):
+    """the type reached after k layers of d"""
+    if T.int_val(k) == 0:
+        return d.dom.t
+    if ex.branch(k == 0):
+        return d.dom.t
+    return ex.list_at(d.layers.boxes, z3.simplify(k - 1)).cod().t
+
+
+def _acc_assume(interp, env, k, seq=None, at_exit=False):
+    ex = interp.ex
+    d = ex._acc
+    base = d.layers.boxes.segs[0][1]
+    env.set('layers', VArrow(d.dom, VTy(_acc_cod(ex, d, k)), VList([('sub', base, T.I(0), k)])))
+
+
+def _acc_check(interp, env, k, label, seq=None):
+    ex = interp.ex
+    d = ex._acc
+    base = d.layers.boxes.segs[0][1]
+    layers = env.lookup('layers')
+    ex.prove(label + ':layers.dom == dom', T.ty_eq(layers.dom.t, d.dom.t))
+    ex.prove(label + ':layers.cod is the type reached after k boxes', T.ty_eq(layers.cod.t, _acc_cod(ex, d, k)))
+    ex.prove_equal(label + ':layers are the first k layers of the request', layers.boxes, VList([('sub', base, T.I(0), k)]))
+
+
+def _p_diagram_init_accepts(ex):
+    d = ex.sym_diagram('d', wf=True, global_inst=True)
+    ex._acc = d
+    return [VObject('monoidal.Diagram'), d.dom, d.cod, d.boxes, d.offsets], {}
+
+
+def _e_diagram_init_accepts(interp, args, kwargs, obj):
+    ex = interp.ex
+    d = ex._acc
+    r = interp.world.record_of('monoidal.Diagram', obj)
+    ex.prove_equal('C01:init.accepts: dom', r.dom, d.dom)
+    ex.prove_equal('C01:init.accepts: cod', r.cod, d.cod)
+    ex.prove_equal('C01:init.accepts: boxes', r.boxes, d.boxes)
+    ex.prove_equal('C01:init.accepts: offsets', r.offsets, d.offsets)
+    ex.prove_equal('C01:init.accepts: the layers computed are the layers of the request', r.layers.boxes, d.layers.boxes)
+    ex.prove('C01:init.accepts: layers.dom', T.ty_eq(r.layers.dom.t, d.dom.t))
+    ex.prove('C01:init.accepts: layers.cod', T.ty_eq(r.layers.cod.t, d.cod.t))
+
+
+_c = Contract('monoidal.Diagram.__init__', is_init=True, params=_p_diagram_init_accepts, ensures=_e_diagram_init_accepts,
+              property_ids=('C01',), loops={0: LoopSpec(assume=_acc_assume, check=_acc_check)})
+_c.label = 'monoidal.Diagram.__init__[accepts]'
 CONTRACTS[_c.label] = _c
